@@ -451,6 +451,37 @@ impl Check for C17 {
             }
         }
 
+        // ---- bootstrap cache files (histories and stress live in C18)
+        {
+            let dir = scratch_dir("c17c");
+            let path = dir.join("cache.json");
+            let cfg = ant_bootstrap::BootstrapCacheConfig::empty().with_cache_path(&path).with_max_peers(3).with_addrs_per_peer(1);
+            let nums: [u64; 10] = [0, 1, u32::MAX as u64, u32::MAX as u64 + 1, i64::MAX as u64 - 86_401, i64::MAX as u64 - t.cx.rng.gen_range(0..86_400), i64::MAX as u64, i64::MAX as u64 + 1, u64::MAX - 1, u64::MAX];
+            for _ in 0..6 {
+                let peers: serde_json::Map<String, Value> = (0..t.cx.rng.gen_range(1..5))
+                    .map(|_| {
+                        let p = libp2p::PeerId::random();
+                        let addrs: Vec<Value> = (0..t.cx.rng.gen_range(1..4))
+                            .map(|i| {
+                                json!({"addr": format!("/ip4/10.0.0.{}/udp/1200/quic-v1/p2p/{p}", i + 1),
+                                    "success_count": nums[t.cx.rng.gen_range(0..4)], "failure_count": nums[t.cx.rng.gen_range(0..4)],
+                                    "last_seen": {"secs_since_epoch": nums[t.cx.rng.gen_range(0..10)], "nanos_since_epoch": nums[t.cx.rng.gen_range(0..4)]}})
+                            })
+                            .collect();
+                        (p.to_string(), Value::Array(addrs))
+                    })
+                    .collect();
+                let doc = json!({"peers": peers, "last_updated": {"secs_since_epoch": nums[t.cx.rng.gen_range(0..10)], "nanos_since_epoch": 0}, "network_version": "1_1.0"});
+                let mut txt = doc.to_string();
+                if t.cx.rng.gen_bool(0.2) {
+                    txt = mutate_str(&mut t.cx.rng, &txt);
+                }
+                std::fs::write(&path, &txt).expect("write cache file");
+                t.run("BootstrapCacheStore::load_cache_data", txt.chars().take(600).collect(), || ant_bootstrap::BootstrapCacheStore::load_cache_data(&cfg).is_ok());
+            }
+            let _ = std::fs::remove_dir_all(&dir);
+        }
+
         // ---- record bytes and proofs (deeper coverage lives in C12 / C13)
         for _ in 0..10 {
             let n = *[0usize, 1, 2, 3, 4, 40].choose(&mut t.cx.rng).expect("nonempty");
